@@ -9,6 +9,7 @@ CONSTANTS
   Classes = {"ok", "needs", "badSig", "rejectFirst", "rejectLater"}
   MaxBad = 2
   Emit = TRUE
+  EmitMod = 1
 INIT InitGraphs
 NEXT NextGraphs
 INVARIANTS TheoremsHold EmitInv
